@@ -17,7 +17,6 @@ vars == <<fg, bg, d, failAt, kind, pre, shortAt>>
 Init == /\ fg \in 0..16 /\ bg \in 0..16 /\ d \in 1..Len(Datas)
         /\ failAt \in 0..4 /\ kind \in Kinds /\ pre \in 0..3 /\ shortAt \in 0..4
         /\ (failAt = 0 => kind = "eO") /\ pre <= Len(Datas[d])
-        /\ (pre = Len(Datas[d]) \/ StartsChar(Datas[d][pre + 1]))   \* the writer accepts whole characters
         \* shortAt = k > 0: the k-th inner write call is offered a code and accepts one byte of it (any of fg, bg, reset)
         /\ (shortAt # 0 => failAt = 0 /\ pre = Len(Datas[d]) /\ (fg # 16 \/ bg # 16)
                            /\ shortAt # 1 + (IF fg # 16 THEN 1 ELSE 0) + (IF bg # 16 THEN 1 ELSE 0)
@@ -40,6 +39,6 @@ Ideal ==
         ELSE IF steps[k][1] = "data" THEN Go(k + 1, Append(inner, <<data, "ok", pre>>), pre)
         ELSE Go(k + 1, Append(inner, <<steps[k][2], "ok", Len(steps[k][2])>>), n)
   IN Go(1, <<>>, 0)
-DesignOk == LET o == Ideal IN CallOk([fg |-> fg, bg |-> bg, data |-> Datas[d], inner |-> o.inner, ret |-> o.ret])
+DesignOk == LET o == Ideal IN CallOk([fg |-> fg, bg |-> bg, data |-> Datas[d], inner |-> o.inner, ret |-> o.ret, whole |-> FALSE])
 Emit == PrintT(ToJson([fg |-> fg, bg |-> bg, data |-> Datas[d], failAt |-> failAt, kind |-> kind, pre |-> pre, shortAt |-> shortAt, shortCode |-> (shortAt # 0)]))
 =============================================================================
